@@ -143,6 +143,7 @@ type TLCJob struct {
 type TLCResult struct {
 	Generated, Distinct int64
 	Depth               int
+	MaxOutdegree        int
 	Err                 string
 	Log                 string
 	Wall                float64
@@ -151,6 +152,7 @@ type TLCResult struct {
 var reStates = regexp.MustCompile(`(\d+) states generated, (\d+) distinct states found`)
 var reDepth = regexp.MustCompile(`depth of the complete state graph search is (\d+)`)
 var reSim = regexp.MustCompile(`(\d+) states checked`)
+var reOutdeg = regexp.MustCompile(`the maximum (\d+)`)
 
 func (c *Ctx) runTLC(j TLCJob) TLCResult {
 	t0 := time.Now()
@@ -219,6 +221,9 @@ func (c *Ctx) runTLC(j TLCJob) TLCResult {
 		res.Generated, _ = strconv.ParseInt(m[len(m)-1][1], 10, 64)
 		res.Distinct = res.Generated
 	}
+	if m := reOutdeg.FindStringSubmatch(res.Log); m != nil {
+		res.MaxOutdegree, _ = strconv.Atoi(m[1])
+	}
 	if m := reDepth.FindStringSubmatch(res.Log); m != nil {
 		res.Depth, _ = strconv.Atoi(m[1])
 	}
@@ -239,7 +244,7 @@ func (c *Ctx) runTLC(j TLCJob) TLCResult {
 	c.addInt("transitions", res.Generated)
 	cmds, _ := c.Ev.Coverage["tlc_runs"].([]interface{})
 	c.Ev.Coverage["tlc_runs"] = append(cmds, map[string]interface{}{"module": j.Module, "cfg": filepath.Base(j.Cfg),
-		"simulate": j.Simulate, "generated": res.Generated, "distinct": res.Distinct, "depth": res.Depth, "wall_s": res.Wall})
+		"simulate": j.Simulate, "generated": res.Generated, "distinct": res.Distinct, "depth": res.Depth, "max_outdegree": res.MaxOutdegree, "wall_s": res.Wall})
 	if res.Err != "" {
 		c.infra("TLC %s/%s: %s", j.Module, filepath.Base(j.Cfg), res.Err)
 	}
